@@ -33,7 +33,7 @@ OPTSETS = [
 def gen(tier, rng):
     combos = list(itertools.product(("ws", "wss"), HOSTS, PORTS, PATHS, QUERIES))
     rng.shuffle(combos)
-    n = 400 if tier == "quick" else 20000
+    n = 1200 if tier == "quick" else 20000
     for i, (scheme, (hurl, hname), port, path, q) in enumerate(combos[:n]):
         url = f"{scheme}://{hurl}" + (f":{port}" if port else "") + path + (f"?{q}" if q else "")
         yield {"url": url, "scheme": scheme, "host": hname, "port": port or (80 if scheme == "ws" else 443),
